@@ -298,7 +298,7 @@ impl Run {
                 };
                 let exp = gcv_spec(&pre, p);
                 if got != exp {
-                    return Err(self.viol(&["C08", "C07", "C06", "C09"], format!("get_child_version returned {got:?}, expected {exp:?}")));
+                    return Err(self.viol(&["C08", "C07", "C06", "C09", "C01"], format!("get_child_version returned {got:?}, expected {exp:?}")));
                 }
             }
             Op::AddSnap(c, sel, pl) => {
